@@ -1,10 +1,13 @@
 package c06
 
 import (
+	"encoding/json"
 	"fmt"
 	"os"
+	"os/exec"
 	"path/filepath"
 	"sort"
+	"strconv"
 
 	"github.com/sarchlab/akita/v5/timing"
 
@@ -29,53 +32,122 @@ type libObs struct {
 	EndRef, EndRes   uint64
 }
 
-// refRun runs the uninterrupted simulation; it returns the event trace (with
-// IDs), the distinct event times and the final payload fingerprints.
-func refRun(cfg *asm.Config) (tr []uint64, times []uint64, fp []string, hs []uint64, done bool, end uint64) {
-	s := asm.Build(cfg, asm.Options{EventTrace: true})
-	defer s.Close()
-	tt := &timeTrace{}
-	s.Engine.AcceptHook(tt)
-	s.Start()
-	s.Engine.Run()
-	p, err := s.Payloads()
+// Every phase of a library case runs in a FRESH PROCESS (re-exec of this binary):
+// a checkpoint is meant to be restored in a new process, and process-global state
+// that is not part of the archive (e.g. the tracing task-ID side tables) must not
+// leak from the saving run into the restoring run.
+//
+//	<self> c06phase ref  <cfg.json>            -> JSON phaseOut on stdout
+//	<self> c06phase src  <cfg.json> <b> <ck>   -> runs to b, saves the checkpoint to <ck>
+//	<self> c06phase res  <cfg.json> <b> <ck>   -> rebuilds, loads <ck>, runs to the end
+type phaseOut struct {
+	Trace  []uint64 `json:"trace"`
+	Times  []uint64 `json:"times"`
+	FP     []string `json:"fp"`
+	HS     []uint64 `json:"hs"`
+	Done   bool     `json:"done"`
+	End    uint64   `json:"end"`
+	Err    string   `json:"err"`
+	NextID uint64   `json:"next_id"`
+}
+
+func phaseMain(args []string) {
+	var out phaseOut
+	raw, err := os.ReadFile(args[1])
 	if err != nil {
 		panic(err)
 	}
-	fp, hs = asm.PayloadHashes(p)
-	return s.Trace.Hashes, tt.distinct(), fp, hs, s.Driver.Done(), uint64(s.Engine.CurrentTime())
+	var cfg asm.Config
+	if err := json.Unmarshal(raw, &cfg); err != nil {
+		panic(err)
+	}
+	s := asm.Build(&cfg, asm.Options{EventTrace: true})
+	tt := &timeTrace{}
+	s.Engine.AcceptHook(tt)
+	switch args[0] {
+	case "ref":
+		s.Start()
+		s.Engine.Run()
+	case "src":
+		b, _ := strconv.ParseUint(args[2], 10, 64)
+		s.Start()
+		s.Engine.RunUntil(timing.VTimeInPicoSec(b))
+		if err := s.Sim.SaveCheckpoint(args[3], "c06"); err != nil {
+			out.Err = err.Error()
+		}
+	case "res":
+		if err := s.Sim.LoadCheckpoint(args[3], "c06"); err != nil {
+			out.Err = err.Error()
+		}
+		s.Engine.Run()
+	}
+	out.Trace = s.Trace.Hashes
+	out.Times = tt.distinct()
+	out.Done = s.Driver.Done()
+	out.End = uint64(s.Engine.CurrentTime())
+	out.NextID = timing.GetIDGeneratorNextID()
+	if args[0] != "src" {
+		p, err := s.Payloads()
+		if err != nil {
+			out.Err += " final:" + err.Error()
+		} else {
+			out.FP, out.HS = asm.PayloadHashes(p)
+		}
+	}
+	s.Close()
+	json.NewEncoder(os.Stdout).Encode(out)
+}
+
+func init() {
+	if len(os.Args) > 2 && os.Args[1] == "c06phase" {
+		phaseMain(os.Args[2:])
+		os.Exit(0)
+	}
+}
+
+func runPhase(phase string, cfg *asm.Config, b uint64, ck string) phaseOut {
+	dir, err := os.MkdirTemp(asm.TmpBase(), "c06ph-")
+	if err != nil {
+		panic(err)
+	}
+	defer os.RemoveAll(dir)
+	cf := filepath.Join(dir, "cfg.json")
+	raw, _ := json.Marshal(cfg)
+	os.WriteFile(cf, raw, 0o644)
+	cmd := exec.Command(os.Args[0], "c06phase", phase, cf, strconv.FormatUint(b, 10), ck)
+	cmd.Stderr = os.Stderr
+	outb, err := cmd.Output()
+	var out phaseOut
+	if err != nil {
+		out.Err = "phase " + phase + " failed: " + err.Error()
+		return out
+	}
+	if err := json.Unmarshal(outb, &out); err != nil {
+		out.Err = "phase " + phase + " output: " + err.Error()
+	}
+	return out
+}
+
+// refRun runs the uninterrupted simulation in a fresh process.
+func refRun(cfg *asm.Config) (tr []uint64, times []uint64, fp []string, hs []uint64, done bool, end uint64) {
+	o := runPhase("ref", cfg, 0, "-")
+	return o.Trace, o.Times, o.FP, o.HS, o.Done, o.End
 }
 
 func runLib(in *LibInput) libObs {
 	var o libObs
 	o.Ref, _, o.FinRef, o.hRef, o.Done, o.EndRef = refRun(in.Cfg)
-
-	src := asm.Build(in.Cfg, asm.Options{EventTrace: true})
-	src.Start()
-	src.Engine.RunUntil(timing.VTimeInPicoSec(in.B))
-	o.Pre = src.Trace.Hashes
-	ck := filepath.Join(src.Dir, "ck.tar.gz")
-	if err := src.Sim.SaveCheckpoint(ck, "c06"); err != nil {
-		o.SaveErr = err.Error()
-	}
-	data, _ := os.ReadFile(ck)
-	src.Close()
-
-	res := asm.Build(in.Cfg, asm.Options{EventTrace: true})
-	ck2 := filepath.Join(res.Dir, "ck.tar.gz")
-	os.WriteFile(ck2, data, 0o644)
-	if err := res.Sim.LoadCheckpoint(ck2, "c06"); err != nil {
-		o.LoadErr = err.Error()
-	}
-	res.Engine.Run()
-	o.Suf = res.Trace.Hashes
-	o.EndRes = uint64(res.Engine.CurrentTime())
-	p, err := res.Payloads()
+	dir, err := os.MkdirTemp(asm.TmpBase(), "c06ck-")
 	if err != nil {
-		o.LoadErr += " final:" + err.Error()
+		panic(err)
 	}
-	o.FinRes, o.hRes = asm.PayloadHashes(p)
-	res.Close()
+	defer os.RemoveAll(dir)
+	ck := filepath.Join(dir, "ck.tar.gz")
+	src := runPhase("src", in.Cfg, in.B, ck)
+	o.Pre, o.SaveErr = src.Trace, src.Err
+	res := runPhase("res", in.Cfg, in.B, ck)
+	o.Suf, o.LoadErr, o.EndRes = res.Trace, res.Err, res.End
+	o.FinRes, o.hRes = res.FP, res.HS
 	for i := range o.FinRef {
 		if i >= len(o.FinRes) || o.FinRef[i] != o.FinRes[i] {
 			o.DiffEntities = append(o.DiffEntities, o.FinRef[i])
